@@ -419,11 +419,17 @@ type FuncContract struct {
 	Modifies []*Clause
 	HasMod   bool
 	Loops    map[int]*LoopContract
+	Asserts  []*AssertClause
 	Trusted  bool // assume-contract (from /verif/specs) – never verified
 	sig      *types.Signature
 	recvT    types.Type
 	File     string
 	Line     int
+}
+
+type AssertClause struct {
+	Anchor string
+	Clause *Clause
 }
 
 type LoopContract struct {
@@ -476,7 +482,8 @@ func NewContractSet() *ContractSet {
 
 var (
 	tagRe     = regexp.MustCompile(`^(\w[\w-]*)(\[[A-Za-z0-9_, ]+\])?\s*(.*)$`)
-	keywords  = map[string]bool{"ghost": true, "functype": true, "func": true, "loop": true, "pure": true, "lemma": true, "requires": true, "ensures": true, "modifies": true, "invariant": true, "decreases": true, "let": true, "iface": true, "assume-contract": true, "axiom": true}
+	assertRe  = regexp.MustCompile(`^in\s+(\S+)\s+at\s+"(.*?)"\s*:\s*(.*)$`)
+	keywords  = map[string]bool{"assert": true, "ghost": true, "functype": true, "func": true, "loop": true, "pure": true, "lemma": true, "requires": true, "ensures": true, "modifies": true, "invariant": true, "decreases": true, "let": true, "iface": true, "assume-contract": true, "axiom": true}
 	pureRe    = regexp.MustCompile(`^(\w+)\s*\((.*?)\)\s*([^=]*?)\s*(?:=\s*(.*))?$`)
 	loopRe    = regexp.MustCompile(`^(\d+)\s+in\s+(\S+)(?:\s+at\s+"(.*)")?\s*$`)
 	lemmaRe   = regexp.MustCompile(`^(\w+)\s*(?:\(([^)]*)\))?\s*((?:[\w-]+=\S+\s*)*):\s*(.*)$`)
@@ -606,6 +613,23 @@ func (cs *ContractSet) LoadFile(path, pkgPath string, trusted bool) error {
 			lc := &LoopContract{Func: m[2], Index: idx, Anchor: m[3], File: path, Line: r.line}
 			fc.Loops[idx] = lc
 			curL, curF = lc, fc
+		case "assert":
+			m := assertRe.FindStringSubmatch(r.text)
+			if m == nil {
+				return fmt.Errorf("%s:%d: bad assert %q (assert in <func> at \"text\": expr)", path, r.line, r.text)
+			}
+			key := pkgPath + "." + m[1]
+			fc, ok := cs.Funcs[key]
+			if !ok {
+				fc = &FuncContract{Pkg: pkgPath, Name: m[1], Opts: map[string]string{"inline-only": "true"}, Loops: map[int]*LoopContract{}, File: path, Line: r.line}
+				cs.Funcs[key] = fc
+			}
+			e, err := ParseSpecExpr(m[3])
+			if err != nil {
+				return fmt.Errorf("%s:%d: %v", path, r.line, err)
+			}
+			fc.Asserts = append(fc.Asserts, &AssertClause{Anchor: m[2], Clause: &Clause{Kind: "assert", Tags: splitTags(r.tags), Text: m[3], Expr: e, File: path, Line: r.line}})
+			curF, curL = nil, nil
 		case "pure", "axiom":
 			m := pureRe.FindStringSubmatch(r.text)
 			if m == nil {
